@@ -239,20 +239,30 @@ func Main(prop, tier, replay string) int {
 
 	known := loadKnown()
 	var fresh []Violation
+	hits := map[int]int{}
+	first := map[int]string{}
 	for _, v := range c.violations {
 		matched := false
-		for _, k := range known.Findings {
+		for ki, k := range known.Findings {
 			if k.Property != prop {
 				continue
 			}
 			if re, err := regexp.Compile(k.Match); err == nil && re.MatchString(v.Key) {
-				fmt.Printf("KNOWN-FINDING: property=%s %s [%s]\n", prop, k.What, v.Key)
+				if hits[ki] == 0 {
+					first[ki] = v.Key
+				}
+				hits[ki]++
 				matched = true
 				break
 			}
 		}
 		if !matched {
 			fresh = append(fresh, v)
+		}
+	}
+	for ki, k := range known.Findings {
+		if hits[ki] > 0 {
+			fmt.Printf("KNOWN-FINDING: property=%s %s [%d case(s) this run, e.g. %s]\n", prop, k.What, hits[ki], oneLine(first[ki], 160))
 		}
 	}
 	// de-duplicate KNOWN-FINDING noise is not needed: keys are unique.
